@@ -265,6 +265,16 @@ func genVariants(rng *rand.Rand, full *listing, m *vecModel, ids *idGen, n int) 
 		case 3: // singleton absent id
 			o.DocIDs = []uint32{ids.absent()}
 		}
+		if len(o.DocIDs) > 1 {
+			// callers hand restriction lists in any order and with repeats
+			switch rng.IntN(3) {
+			case 0:
+				rng.Shuffle(len(o.DocIDs), func(a, b int) { o.DocIDs[a], o.DocIDs[b] = o.DocIDs[b], o.DocIDs[a] })
+			case 1:
+				o.DocIDs = append(o.DocIDs, o.DocIDs[rng.IntN(len(o.DocIDs))])
+				rng.Shuffle(len(o.DocIDs), func(a, b int) { o.DocIDs[a], o.DocIDs[b] = o.DocIDs[b], o.DocIDs[a] })
+			}
+		}
 		out = append(out, o)
 	}
 	return out
